@@ -262,15 +262,37 @@ pub fn vendor_set() -> impl Strategy<Value = (u8, u32, u16)> {
     ]
 }
 
+/// Vendor set lists of 1-16 entries; one list in four contains an exact
+/// duplicate of one of its entries at another position.
+fn vendor_sets() -> BoxedStrategy<Vec<(u8, u32, u16)>> {
+    (prop_oneof![2 => vec(vendor_set(), 1..=1), 3 => vec(vendor_set(), 1..=16)], any::<u16>(), any::<u16>(), 0u8..4)
+        .prop_map(|(mut v, a, b, dup)| {
+            if dup == 0 && v.len() >= 2 {
+                let i = (a as usize * v.len()) >> 16;
+                let j = (b as usize * v.len()) >> 16;
+                v[j] = v[i];
+            }
+            v
+        })
+        .boxed()
+}
+
 /// A validly configured context: 7-bit address, 0-30 message types, 1-16
 /// vendor sets of format 0/1.
 pub fn ctx_cfg() -> BoxedStrategy<CtxCfg> {
-    (
-        addr7(),
-        msg_type_list(false),
-        prop_oneof![2 => vec(vendor_set(), 1..=1), 3 => vec(vendor_set(), 1..=16)],
-    )
-        .prop_map(|(addr, msg_types, vendors)| CtxCfg { addr, msg_types, vendors })
+    (addr7(), msg_type_list(false), vendor_sets()).prop_map(|(addr, msg_types, vendors)| CtxCfg { addr, msg_types, vendors }).boxed()
+}
+
+/// As `ctx_cfg`, but one context in eight has no vendor ID set at all (an
+/// endpoint without vendor-defined message support).
+pub fn ctx_cfg_maybe_no_vendor() -> BoxedStrategy<CtxCfg> {
+    (ctx_cfg(), 0u8..8)
+        .prop_map(|(mut c, k)| {
+            if k == 0 {
+                c.vendors.clear();
+            }
+            c
+        })
         .boxed()
 }
 
@@ -544,7 +566,12 @@ pub fn ctrl_request(a: u8, nvend: usize, w: ReqWeights) -> BoxedStrategy<Vec<u8>
         prop_oneof![3 => Just(0xC8u8), 1 => (0u8..16).prop_map(|t| 0xC0 | t)],
         kind,
     )
-        .prop_map(move |(s, iid, dest_eid, flags, (cmd, data))| {
+        .prop_map(move |(s, iid, dest_eid, flags, (cmd, mut data))| {
+            // relation between fields: now and then the assigned EID equals the
+            // requester's own EID, or the destination EID names the EID byte
+            if cmd == 0x01 && data.len() == 2 && dest_eid & 7 == 0 && s != 0 && s != 0xFF {
+                data[1] = s;
+            }
             let mut body = vec![0x80 | iid, cmd];
             body.extend_from_slice(&data);
             refmodel::build_packet(a, s, dest_eid, s, flags, 0x00, &body)
